@@ -35,6 +35,9 @@ func (r *probeReg) QueryServantBySet(ctx context.Context, id, _ string) ([]regis
 }
 
 func overlappingProbesScenario(id, probes, slowMs, gapMs int) {
+	if poisoned.Load() {
+		return
+	}
 	var delay atomic.Int64 // ms; negative: silent
 	delay.Store(-1)
 	srv := netlab.NewScriptServer(func(ev *netlab.ReqEvent) {
@@ -62,12 +65,26 @@ func overlappingProbesScenario(id, probes, slowMs, gapMs int) {
 		d   time.Duration
 	}
 	var seq atomic.Int64
-	call := func(c *rpcw.Client, ms int) res {
+	rawCall := func(c *rpcw.Client, ms int) res {
 		ctx, cancel := context.WithTimeout(context.Background(), time.Duration(ms)*time.Millisecond)
 		defer cancel()
 		t0 := time.Now()
 		_, _, err := c.Call(ctx, "echo", []byte(fmt.Sprintf("c09-probes-%d-%d", id, seq.Add(1))), false)
 		return res{err, time.Since(t0)}
+	}
+	// every call sits under a watchdog: a call that does not come back must not take the monitor with it
+	var never atomic.Bool
+	call := func(c *rpcw.Client, ms int) res {
+		ch := make(chan res, 1)
+		go func() { ch <- rawCall(c, ms) }()
+		w := time.Duration(ms)*time.Millisecond + 500*time.Millisecond + slack + 10*time.Second
+		select {
+		case r := <-ch:
+			return r
+		case <-time.After(w):
+			never.Store(true)
+			return res{fmt.Errorf("never returned"), w}
+		}
 	}
 	// hook calls take the manager's lock: never wait for them without a watchdog
 	guarded := func(f func()) bool {
@@ -82,7 +99,13 @@ func overlappingProbesScenario(id, probes, slowMs, gapMs int) {
 	}
 	// 1. silent peer: five calls time out, the status check takes the endpoint out of rotation
 	for i := 0; i < 5; i++ {
-		if r := call(cl, 150); r.err == nil {
+		r := call(cl, 150)
+		if never.Load() {
+			run.Violation("never-returned", locus, "a call (deadline 150 ms) to a peer that reads and stays silent had not returned 10 s after its bound", desc)
+			poisoned.Store(true)
+			return
+		}
+		if r.err == nil {
 			run.Inconclusive("overlapping probes: a call to the silent peer succeeded")
 			return
 		}
@@ -125,6 +148,12 @@ func overlappingProbesScenario(id, probes, slowMs, gapMs int) {
 			if r.err == nil {
 				answered++
 			}
+			if never.Load() {
+				desc["probe_calls_returned"] = k
+				run.Violation("never-returned", locus, "a probe call (deadline 3 s) to the slow peer had not returned 10 s after its bound", desc)
+				poisoned.Store(true)
+				return
+			}
 		case <-time.After(3*time.Second + 500*time.Millisecond + slack + 10*time.Second):
 			desc["probe_calls_returned"] = k
 			run.Violation("never-returned", locus, fmt.Sprintf("a probe call (deadline 3 s) to the slow peer had not returned %v after its bound", 10*time.Second), desc)
@@ -149,6 +178,11 @@ func overlappingProbesScenario(id, probes, slowMs, gapMs int) {
 		select {
 		case r := <-done:
 			desc["call"], desc["returned_after_ms"] = i+1, r.d.Milliseconds()
+			if never.Load() {
+				run.Violation("never-returned", locus, fmt.Sprintf("ordinary call %d (deadline 500 ms) after %d overlapping, answered probe calls had not returned 10 s after its bound", i+1, probes), desc)
+				poisoned.Store(true)
+				return
+			}
 			if r.d > b {
 				run.Violation("returned-late", locus, fmt.Sprintf("ordinary call %d after %d overlapping probes returned after %v (deadline 500 ms, bound %v)", i+1, probes, r.d, b), desc)
 				return
@@ -197,6 +231,15 @@ func timerHistoryScenario(d time.Duration) {
 			map[string]interface{}{"duration_ms": d.Milliseconds(), "idle_ticks_before": g, "tick_ms": tick.Milliseconds()})
 		poisoned.Store(true)
 	}
+	// asking for the timer happens under the watchdog too (it takes the timer map's lock)
+	ask := func() <-chan struct{} {
+		out := make(chan struct{})
+		go func() {
+			<-rtimer.After(d)
+			close(out)
+		}()
+		return out
+	}
 	fired := func(c <-chan struct{}) bool {
 		select {
 		case <-c:
@@ -205,7 +248,10 @@ func timerHistoryScenario(d time.Duration) {
 			return false
 		}
 	}
-	if !fired(rtimer.After(d)) {
+	if poisoned.Load() {
+		return
+	}
+	if !fired(ask()) {
 		lost(0, "on a fresh wheel")
 		return
 	}
@@ -213,9 +259,9 @@ func timerHistoryScenario(d time.Duration) {
 		time.Sleep(time.Duration(g) * tick)
 		t0 := time.Now()
 		// two waiters, the second half a tick later: neighbouring slots
-		c1 := rtimer.After(d)
+		c1 := ask()
 		time.Sleep(tick / 2)
-		c2 := rtimer.After(d)
+		c2 := ask()
 		if !fired(c1) || !fired(c2) {
 			lost(g, fmt.Sprintf("%d idle ticks after the previous expiry", g))
 			return
